@@ -3,6 +3,7 @@ package main
 import (
 	"fmt"
 	"path/filepath"
+	"sort"
 	"strings"
 	"sync"
 
@@ -53,6 +54,10 @@ func loadForms(repo string) (*formsDB, error) {
 		}
 		for i, vf := range x86.VerifForms() {
 			r := formRow{VerifForm: vf, Index: i, Suffixes: x86.VerifSuffixSets(vf.SuffixesClass)}
+			// the hook iterates a Go map: canonicalise so that generation is reproducible across processes
+			sort.Slice(r.Suffixes, func(a, b int) bool {
+				return strings.Join(r.Suffixes[a], ".") < strings.Join(r.Suffixes[b], ".")
+			})
 			for _, o := range vf.Operands {
 				var nm string
 				if o.Implicit {
